@@ -187,12 +187,13 @@ def fsdp_rank_fn(task, hsdp=False):
         S = task["S"]
         k = rank % S
         fulls = full_tensors(task)
-        params, meta = [], {}
+        params, meta_of = [], {}
         for i, (s, e) in enumerate(task["shards"][k]):
             p = torch.nn.Parameter(fulls[i].reshape(-1)[s:e].clone())
             params.append(p)
-            meta[p] = FSDPParameterMetadata(fqn=f"p{i}", shape=torch.Size(task["shapes"][i]), numel=int(fulls[i].numel()),
-                                            start_idx=s, end_idx=e, sharding_strategy=ShardingStrategy.FULL_SHARD)
+            meta_of[i] = FSDPParameterMetadata(fqn=f"p{i}", shape=torch.Size(task["shapes"][i]), numel=int(fulls[i].numel()),
+                                               start_idx=s, end_idx=e, sharding_strategy=ShardingStrategy.FULL_SHARD)
+        meta = {params[i]: meta_of[i] for i in task.get("meta_order", range(len(params)))}     # a mapping: its order carries no meaning
         if hsdp:
             from torch.distributed.device_mesh import init_device_mesh
             mesh = init_device_mesh("cpu", (task["R"], S), mesh_dim_names=("replicate", "shard"))
@@ -410,7 +411,7 @@ def fsdp_metadata_task(task):
         class M(nn.Module):
             def __init__(self):
                 super().__init__()
-                self.ps = nn.ParameterList([nn.Parameter(torch.zeros(*s)) for s in shapes])
+                self.ps = nn.ParameterList([nn.Parameter(torch.zeros(tuple(s))) for s in shapes])
 
         def fn(rank, world):
             m = FSDP(M(), use_orig_params=True, device_id=torch.device("cpu"))
